@@ -313,4 +313,12 @@ theorem specInfos_cons_some (H : Bytes → Bytes) (c : Cell) (cs : List Cell) (h
   obtain ⟨ss, h2⟩ := h2
   exact ⟨s :: ss, by simp [specInfos, h1, h2]⟩
 
+theorem pruneRel_ord_refl (H : Bytes → Bytes) (d : Nat) (bits : Bits) (refs : List Cell) (h : PruneRels H d refs refs) :
+    PruneRel H d (.mk (-1) bits refs) (.mk (-1) bits refs) := by
+  rw [PruneRel]; exact Or.inr ⟨.ordinary, refs, by decide, rfl, by simpa [Spec.Kind.mu] using h⟩
+theorem pruneRels_nil (H : Bytes → Bytes) (d : Nat) : PruneRels H d [] [] := by rw [PruneRels]
+theorem pruneRels_cons (H : Bytes → Bytes) (d : Nat) (c : Cell) (cs : List Cell) (h1 : PruneRel H d c c) (h2 : PruneRels H d cs cs) :
+    PruneRels H d (c :: cs) (c :: cs) := by
+  rw [PruneRels]; exact ⟨c, cs, rfl, h1, h2⟩
+
 end TonVerif.Proofs.Locate
